@@ -1021,13 +1021,22 @@ impl FunctionCompiler<'_> {
                 self.compile_and_cast(inner_expr, cast_to)
             }
             hir::Expr::Ref { expr, .. } => {
+                // parentheses don't change what is being referenced:
+                // `^mut (foo.bar)` is the address of `foo.bar`, not of a copy of it
+                let mut place = expr;
+                while let hir::Expr::Paren(Some(inner)) = self.world_bodies[self.loc.file()][place]
+                {
+                    place = inner;
+                }
+
                 if self.tys[self.loc][expr].is_aggregate()
                     || matches!(
-                        self.world_bodies[self.loc.file()][expr],
+                        self.world_bodies[self.loc.file()][place],
                         hir::Expr::Local(_)
                             | hir::Expr::LocalGlobal(_)
                             | hir::Expr::Index { .. }
                             | hir::Expr::Member { .. }
+                            | hir::Expr::Deref { .. }
                     )
                 {
                     // references to locals or globals should return the actual memory address of the local or global
